@@ -48,6 +48,12 @@ def run(ctx, out, pid, props, projection, n_quick, n_thorough, pool=None, weight
     first_fail_cases = {}
     cases = list(corpus_cases(pid)) + list(extra_cases)
     st['corpus_cases'] = len(cases)
+    focus_pool = [t for t in (pool or list(kgen.TEMPLATES))
+                  if any(fdesc[4] for fdesc in kgen.TEMPLATES[t])]
+    for i in range(n // 5 if focus_pool else 0):
+        cases.append(kgen.gen_focus_case(rng, rng.choice(focus_pool), nops=rng.randrange(4, nops + 2),
+                                         nres=rng.choice([0, 1])))
+    st['focus_cases'] = n // 5 if focus_pool else 0
     for i in range(n):
         t = None
         if fixed_templates:
@@ -105,7 +111,7 @@ def run(ctx, out, pid, props, projection, n_quick, n_thorough, pool=None, weight
         'traces_validated_against_impl': st['traces_validated'],
         'cases_with_correspondence_difference': st['cases_with_diff'],
         'cases_failing_oracle': st['cases_failing_oracle'],
-        'corpus_cases': st['corpus_cases'],
+        'corpus_cases': st['corpus_cases'], 'focus_cases': st['focus_cases'],
         'ops_by_kind': dict(ops_by_kind), 'outcomes_by_code': dict(outcomes),
         'templates_used': dict(tmpl_count), 'history_lengths': dict(hist_len),
         'projection_compared': sorted(projection), 'oracles': sorted(props),
